@@ -344,9 +344,9 @@ def run(ctx):
     redf = repo.func(PU, "reduce_paramsets_requirements")
     ctx.touch(redf)
     keys = None
-    for n in ast.walk(redf.node):
-        if isinstance(n, ast.Assign) and isinstance(n.value, ast.List) and all(isinstance(A.const_value(e), str) for e in n.value.elts) and len(n.value.elts) >= 5:
-            keys = [A.const_value(e) for e in n.value.elts]
+    for n in repo.walk_with_tables(redf):  # a local list or a module-level tuple of key names
+        if isinstance(n, (ast.List, ast.Tuple)) and len(n.elts) >= 5 and all(isinstance(A.const_value(e), str) for e in n.elts) and "inits" in [A.const_value(e) for e in n.elts]:
+            keys = [A.const_value(e) for e in n.elts]
     if keys is None:
         ctx.unrecognised(r6, redf, "paramset_keys", "list of parameter keys not found")
     else:
